@@ -434,10 +434,9 @@ fn lean(t: &mut Tctx) {
 /// histories on one `Slice`, including writes after a refused one.  Whatever was refused before, nothing is
 /// ever written outside the buffer and `finalize` returns exactly the accepted bytes, at the front.
 fn slice_flavor_histories(t: &mut Tctx) {
-    use postcard::ser_flavors::{Flavor, Slice};
     let mut gb = GuardBuf::new(1);
     let n = t.cfg.scale(12, 4000, 80_000);
-    for it in 0..n {
+    for _ in 0..n {
         if t.cfg.expired() {
             break;
         }
@@ -460,7 +459,31 @@ fn slice_flavor_histories(t: &mut Tctx) {
             plan.push((0..len).map(|_| 1 + (t.rng.next() % 200) as u8).collect());
             kinds.push(push);
         }
-        let plan_text = plan.iter().zip(&kinds).map(|(b, p)| if *p { format!("push({:02x})", b[0]) } else { format!("extend({})", b.len()) }).collect::<Vec<_>>().join(" ");
+        slice_history_one(t, &mut gb, cap, &plan, &kinds);
+    }
+}
+
+/// Plan syntax of the replay files: `push(ab)` / `extend(5)` separated by blanks.
+fn parse_slice_plan(text: &str) -> (Vec<Vec<u8>>, Vec<bool>) {
+    let mut plan = Vec::new();
+    let mut kinds = Vec::new();
+    for tok in text.split_whitespace() {
+        if let Some(x) = tok.strip_prefix("push(").and_then(|r| r.strip_suffix(')')) {
+            plan.push(vec![u8::from_str_radix(x, 16).unwrap_or(0x41)]);
+            kinds.push(true);
+        } else if let Some(x) = tok.strip_prefix("extend(").and_then(|r| r.strip_suffix(')')) {
+            let n: usize = x.parse().unwrap_or(0);
+            plan.push((0..n).map(|i| 1 + (i % 200) as u8).collect());
+            kinds.push(false);
+        }
+    }
+    (plan, kinds)
+}
+
+fn slice_history_one(t: &mut Tctx, gb: &mut GuardBuf, cap: usize, plan: &[Vec<u8>], kinds: &[bool]) {
+    use postcard::ser_flavors::{Flavor, Slice};
+    {
+        let plan_text = plan.iter().zip(kinds).map(|(b, p)| if *p { format!("push({:02x})", b[0]) } else { format!("extend({})", b.len()) }).collect::<Vec<_>>().join(" ");
         t.st.eval();
         t.st.nontrivial(fp_mix(fp(plan_text.as_bytes()), cap as u64));
         t.st.count("slice_flavor_histories");
@@ -480,7 +503,7 @@ fn slice_flavor_histories(t: &mut Tctx) {
                 let mut fl = Slice::new(buf);
                 let mut accepted: Vec<u8> = Vec::new();
                 let mut sticky = 0u32;
-                for (k, (bytes, push)) in plan.iter().zip(&kinds).enumerate() {
+                for (k, (bytes, push)) in plan.iter().zip(kinds).enumerate() {
                     let fits = accepted.len() + bytes.len() <= cap;
                     let res = if *push { fl.try_push(bytes[0]) } else { fl.try_extend(bytes) };
                     match (res, fits) {
@@ -497,11 +520,11 @@ fn slice_flavor_histories(t: &mut Tctx) {
             match r {
                 Err(p) => {
                     t.st.violation("C05:panic", format!("Slice flavour of capacity {}, plan [{}]: panicked: {}", cap, plan_text, p), rpv());
-                    break;
+                    return;
                 }
                 Ok(Err(m)) => {
                     t.st.violation("C05:slice-flavour-history", format!("Slice flavour of capacity {}, plan [{}]: {}", cap, plan_text, m), rpv());
-                    break;
+                    return;
                 }
                 Ok(Ok((accepted, optr, olen, sticky))) => {
                     if sticky > 0 {
@@ -514,11 +537,11 @@ fn slice_flavor_histories(t: &mut Tctx) {
                             format!("Slice flavour of capacity {}, plan [{}]: finalize returned offset {} len {} but {} bytes were accepted ({})", cap, plan_text, optr.wrapping_sub(base) as isize, olen, accepted.len(), hexs(&accepted)),
                             rpv(),
                         );
-                        break;
+                        return;
                     }
                     if window[olen..].iter().any(|b| *b != FILL) || (!guarded && !canary.intact()) {
                         t.st.violation("C05:write-outside-buffer", format!("Slice flavour of capacity {}, plan [{}]: bytes beyond the accepted output were modified", cap, plan_text), rpv());
-                        break;
+                        return;
                     }
                 }
             }
@@ -649,6 +672,20 @@ fn replay(cfg: &Cfg, p: &std::path::Path) -> Stats {
     };
     let s = parallel(&Cfg { threads: 1, ..cfg.clone() }, 9, |t| {
         let algos = crc_algos();
+        match m.get("kind").map(|s| s.as_str()) {
+            Some("ser-flavor-history") => {
+                let cap: usize = m.get("capacity").and_then(|s| s.parse().ok()).unwrap_or(0);
+                let (plan, kinds) = parse_slice_plan(m.get("plan").map(|s| s.as_str()).unwrap_or(""));
+                let mut gb = GuardBuf::new(1);
+                slice_history_one(t, &mut gb, cap, &plan, &kinds);
+                return;
+            }
+            Some("impure") => {
+                impure_values_lane(t, "C05");
+                return;
+            }
+            _ => {}
+        }
         let shape = match Shape::parse(m.get("shape").map(|s| s.as_str()).unwrap_or("")) {
             Ok(s) => s,
             Err(e) => {
